@@ -43,13 +43,14 @@ impl Distribution<i64> for Alpha {
     }
 }
 
-fn triple<O>(seed: u64, mk: impl Fn() -> O, call: impl Fn(&O, &mut Sm) -> Tree) -> Tree {
+fn triple<O>(seed: u64, mk: impl Fn() -> O + Sync, call: impl Fn(&O, &mut Sm) -> Tree + Sync) -> Tree {
     let run = |op: &O, mut rng: Sm| {
         let r: Vec<Tree> = (0..3).map(|_| call(op, &mut rng)).collect();
         tl![L(r), a(rng.next())]
     };
     let ra = run(&mk(), Sm::new(seed));
-    let rb = run(&mk(), Sm::new(seed));
+    // run B happens on ANOTHER THREAD (value built and used there): nothing thread-bound may influence the outcome
+    let rb = std::thread::scope(|sc| sc.spawn(|| run(&mk(), Sm::new(seed))).join()).unwrap_or_else(|panic| std::panic::resume_unwind(panic));
     let used = mk();
     let mut other = Sm::new(seed ^ 0x5555_AAAA);
     for _ in 0..5 {
@@ -341,7 +342,7 @@ fn run_push(l: &[Tree]) -> Option<Tree> {
                 Ok(s) => tl![A(0), state_tree(&s, &strings), A(0)],
                 Err(e) => {
                     let d = format!("{e:?}");
-                    let k = if d.contains("Overflow { stack_type") { 2 } else if d.contains("Underflow") { 1 } else { 3 };
+                    let k = fatal_kind(&d, 3);
                     tl![A(2), state_tree(&e.into_state(), &strings), A(k)]
                 }
             };
